@@ -189,13 +189,25 @@ def cli_run(spec, tmp, flags, stage=None, fname="out.fits"):
         return t
 
     R.compute = capture
+    no_o = "NO-O" in flags  # pseudo-flag: leave -o out (the command then names the file itself, in the working directory)
+    flags = [f for f in flags if f != "NO-O"]
+    cwd0 = os.getcwd()
     try:
+        if no_o:
+            work = os.path.join(tmp, "cwd")
+            os.makedirs(work, exist_ok=True)
+            os.chdir(work)
+            before = set(os.listdir(work))
         with warnings.catch_warnings():
             warnings.simplefilter("ignore")
             with own.frozen_clock(), own.null_progress(), dask.config.set(scheduler="synchronous"), faults.stage_fault(stage):
                 np.random.seed(spec.get("seed", 11))
-                res = CliRunner().invoke(R.run, [toml, "-o", path] + list(flags))
+                res = CliRunner().invoke(R.run, [toml] + ([] if no_o else ["-o", path]) + list(flags))
+        if no_o:
+            new = sorted(set(os.listdir(work)) - before)
+            path = os.path.join(work, new[0]) if len(new) == 1 else os.path.join(work, "<the file the command names>" if not new else "<several files: %s>" % new)
     finally:
+        os.chdir(cwd0)
         R.compute = real
     return res.exit_code, cap.get("t"), path, res
 
@@ -221,7 +233,7 @@ def judge_cli(spec, flags, stage):
             elif w or not n:
                 out += [(c, f"flags {list(flags)}: {e}", o) for c, e, o in judge_file(path, spec, K, final)]
             else:
-                after = sorted(os.listdir(tmp))
+                after = sorted(x for x in os.listdir(tmp) if x != "cwd") + (sorted("cwd/" + x for x in os.listdir(os.path.join(tmp, "cwd"))) if os.path.isdir(os.path.join(tmp, "cwd")) else [])
                 if os.path.exists(path) or before != after:
                     out.append(("nothing_written_when_disabled", f"flags {list(flags)}: no file", [x for x in after if x not in before]))
         else:
@@ -232,7 +244,7 @@ def judge_cli(spec, flags, stage):
                 out.append(("exception_propagates", f"non-zero exit when stage {stage} fails (flags {list(flags)})", "exit 0"))
             if w:
                 out += [(c, f"flags {list(flags)}, stage {stage} fails: {e}", o) for c, e, o in judge_file(path, spec, kb, final)]
-            elif os.path.exists(path):
+            elif os.path.exists(path) and not path.endswith(">"):
                 out.append(("nothing_written_when_disabled", f"flags {list(flags)}, stage {stage} fails: no file", "file exists"))
     finally:
         shutil.rmtree(tmp, ignore_errors=True)
@@ -405,6 +417,10 @@ def run(ctx):
     for sp in (base[0], base[1]):
         for flags in ((), ("-w",), ("-n",), ("-w", "-n")):
             for st in (None, "optical_eas", "radio_eas", "taus"):
+                jobs.append((sp, ("cli", tuple(flags), st)))
+        # the same without -o (the command names the file itself)
+        for flags in (("NO-O",), ("NO-O", "-w"), ("NO-O", "-w", "-n"), ("NO-O", "-n")):
+            for st in (None, "radio_eas"):
                 jobs.append((sp, ("cli", tuple(flags), st)))
     for sp in zero:
         jobs.append((sp, ("boundaries",)))
